@@ -85,3 +85,9 @@ Ltac fold_bool := repeat match goal with
   | |- context [if ?a then ?b else false] => change (if a then b else false) with (andb a b)
   | |- context [if ?a then true else ?b] => change (if a then true else b) with (orb a b)
   end.
+
+(* case analysis on every condition in the goal; used to prove equivalences by the meaning of the conditions (lia)
+   rather than by their shape, so that a rewrite of the Go code which keeps its meaning keeps the proof *)
+Ltac split_ifs := repeat match goal with
+  | |- context [if ?c then _ else _] => let E := fresh "E" in destruct c eqn:E
+  end.
